@@ -5,6 +5,8 @@ P="$1"; shift
 mkdir -p /root/scratch
 WT=$(mktemp -d /root/scratch/tp_XXXX); rmdir "$WT"
 git -C /repo worktree add -q --detach "$WT" HEAD || exit 2
+# contract files as they are in /repo's working tree (they may be ahead of HEAD)
+for f in /repo/zz_contracts*_verif.go /repo/*/zz_contracts*_verif.go; do [ -f "$f" ] && cp "$f" "$WT/${f#/repo/}"; done
 if ! git -C "$WT" apply "$P" 2>/tmp/apply.err; then echo "PATCH-DOES-NOT-APPLY $(head -2 /tmp/apply.err)"; git -C /repo worktree remove --force "$WT"; exit 3; fi
 for prop in "$@"; do
   out=$(/verif/bin/govc -repo "$WT" -verif /verif -prop "$prop" -no-evidence -tier quick 2>&1)
